@@ -153,34 +153,26 @@ theorem restoreTD_coherent (H : Decl → Nat) (i : Nat) (td : TD) (h : td.cohere
   obtain ⟨t, d⟩ := td
   unfold TD.coherent at h
   unfold restoreTD
-  simp only at h ⊢
-  split
-  · next hm =>
-    simp only [hm, if_true] at h
-    have : t = mkTupleTy H d t.level := by simpa using h
-    rw [← this]
-  · next hm =>
-    simp only [hm, if_false] at h
-    have : d = [] := by simpa using h
-    rw [this]
+  simp only [Bool.or_eq_true, beq_iff_eq] at h
+  simp only
+  cases hd : d.isEmpty with
+  | true =>
+    have : d = [] := by simpa using hd
+    subst this
+    simp
+  | false =>
+    simp only [hd, Bool.false_eq_true, false_or] at h
+    have hm : t.major = ROWTYPE := by rw [h]; unfold mkTupleTy; split <;> rfl
+    simp only [hm, Bool.false_eq_true, not_false_eq_true, and_self, if_true]
+    rw [← h]
 
-theorem RegTy.td_coherent (H : Decl → Nat) (r : RegTy) (h : r.coherent = true) : (r.td H).coherent H = true := by
+/-- every symbol the code can build is coherent -/
+theorem RegTy.td_coherent (H : Decl → Nat) (r : RegTy) : (r.td H).coherent H = true := by
   cases r with
-  | plain t =>
-    obtain ⟨ma, mi, lv⟩ := t
-    simp only [RegTy.coherent, Bool.or_eq_true, Bool.not_eq_true', beq_eq_false_iff_ne, ne_eq, beq_iff_eq] at h
-    simp only [RegTy.td, TD.coherent, mkTupleTy, List.isEmpty_nil, if_true]
-    split
-    · next hm =>
-      cases h with
-      | inl h => exact absurd hm h
-      | inr h => subst hm; subst h; simp
-    · rfl
+  | plain t => simp [RegTy.td, TD.coherent]
   | tuple d lv =>
-    simp only [RegTy.td, TD.coherent]
-    have hm : (mkTupleTy H d lv).major = ROWTYPE := by unfold mkTupleTy; split <;> rfl
     have hl : (mkTupleTy H d lv).level = lv := by unfold mkTupleTy; split <;> rfl
-    simp [hm, hl]
+    simp [RegTy.td, TD.coherent, hl]
 
 /-! ## flags: unwinding on the flag column -/
 
@@ -386,7 +378,7 @@ theorem inv_init (H : Decl → Nat) (c0 : Ctx) (hidle : c0.idle = true) (hcoh : 
   · simp [St.init, parsingBegin]
 
 theorem inv_register {H : Decl → Nat} {c0 : Ctx} {st : St} {c' : Ctx} {n : String} {r : RegTy}
-    (hinv : Inv H c0 st) (hr : r.coherent = true) (h : registerSymbol H st.ctx n r = .ok c') (ch : Option Child) :
+    (hinv : Inv H c0 st) (h : registerSymbol H st.ctx n r = .ok c') (ch : Option Child) :
     Inv H c0 ⟨c', st.stack, ch⟩ := by
   rcases registerSymbol_cases h with h | h | ⟨i, cur, hcur, h⟩
   · subst h; exact ⟨hinv.len_n, hinv.len_t, hinv.len_f, hinv.names, hinv.types, hinv.flags, hinv.exec, hinv.coh, hinv.parsing⟩
@@ -400,7 +392,7 @@ theorem inv_register {H : Decl → Nat} {c0 : Ctx} {st : St} {c' : Ctx} {n : Str
     · simp only; rw [take_append_singleton_of_le _ _ _ hinv.len_f]; exact hinv.flags
     · have := hinv.coh
       simp only [Ctx.coherent, List.all_append, Bool.and_eq_true] at this ⊢
-      exact ⟨this, by simp [RegTy.td_coherent H r hr]⟩
+      exact ⟨this, by simp [RegTy.td_coherent H r]⟩
   · subst h
     have hcohcur : cur.coherent H = true := all_getElem? _ _ _ _ hinv.coh hcur
     refine ⟨hinv.len_n, ?_, hinv.len_f, hinv.names, ?_, hinv.flags, hinv.exec, ?_, hinv.parsing⟩
@@ -427,7 +419,7 @@ theorem inv_register {H : Decl → Nat} {c0 : Ctx} {st : St} {c' : Ctx} {n : Str
       exact hinv.types
     · have := hinv.coh
       simp only [Ctx.coherent] at this ⊢
-      exact all_modAt_const _ _ _ _ this (RegTy.td_coherent H r hr)
+      exact all_modAt_const _ _ _ _ this (RegTy.td_coherent H r)
 
 theorem inv_enter {H : Decl → Nat} {c0 : Ctx} {st : St} {c' : Ctx} {fr : Frame}
     (hinv : Inv H c0 st)
@@ -482,15 +474,12 @@ theorem inv_step {H : Decl → Nat} {c0 : Ctx} {st st' : St} {e : Ev}
     cases e with
     | reg n r =>
       simp only at hstep
-      split at hstep
-      · cases hstep
-      · next hr =>
-        cases hreg : registerSymbol H st.ctx n r with
-        | ok c =>
-          simp only [hreg] at hstep
-          cases hstep
-          exact inv_register hinv (by simpa using hr) hreg _
-        | error err => simp only [hreg] at hstep; cases hstep
+      cases hreg : registerSymbol H st.ctx n r with
+      | ok c =>
+        simp only [hreg] at hstep
+        cases hstep
+        exact inv_register hinv hreg _
+      | error err => simp only [hreg] at hstep; cases hstep
     | enterFor i =>
       simp only at hstep
       cases h : enterFor st.ctx i with
@@ -568,14 +557,19 @@ theorem preserved_of_inv {H : Decl → Nat} {c0 : Ctx} {st : St} (hidle : c0.idl
   | some ch => exact key _ (by simp [rollbackCtx]) (by simp [rollbackCtx]) (by simp [rollbackCtx]) (by simp [rollbackCtx]) (by simp [rollbackCtx])
 
 
-/-- function-table invariant for texts that never declare a pre-existing (name, arity) -/
+/-- function-table invariant for texts that do not COMPLETE a redefinition of a pre-existing function -/
 structure FInv (c0 : Ctx) (st : St) : Prop where
-  pre : st.ctx.fns.take c0.fns.length = c0.fns
   len : c0.fns.length ≤ st.ctx.fns.length
-  /-- while a declaration is open: its entry is not a pre-existing one, and neither is a backed-up functor -/
-  open_new : ∀ ch, st.child = some ch → (findFn ch.name ch.arity c0.fns = none) ∧
-    (st.ctx.fbacked = none → c0.fns.length < st.ctx.fns.length) ∧
-    (∀ b, st.ctx.fbacked = some b → findFn b.name b.arity c0.fns = none)
+  /-- no declaration open: the pre-existing entries are untouched -/
+  closed : st.child = none → st.ctx.fns.take c0.fns.length = c0.fns
+  /-- a declaration is open: either it is not a pre-existing one (then neither is a backed-up functor), or it is the
+  pre-existing entry `i`, whose functor is in `_backed` and is what `rollback` will find -/
+  opened : ∀ ch, st.child = some ch →
+    (findFn ch.name ch.arity c0.fns = none ∧ st.ctx.fns.take c0.fns.length = c0.fns ∧
+      (st.ctx.fbacked = none → c0.fns.length < st.ctx.fns.length) ∧
+      (∀ b, st.ctx.fbacked = some b → findFn b.name b.arity c0.fns = none)) ∨
+    (∃ i b, findFn ch.name ch.arity c0.fns = some i ∧ st.ctx.fbacked = some b ∧
+      (modAt (fun _ => b) i st.ctx.fns).take c0.fns.length = c0.fns ∧ findFn b.name b.arity st.ctx.fns = some i)
 
 theorem findFn_take_none {n : String} {a : Nat} {l : List Fn} {m : Nat} {i : Nat}
     (hpre : findFn n a (l.take m) = none) (hi : findFn n a l = some i) : m ≤ i := by
@@ -602,71 +596,128 @@ theorem findFn_take_none {n : String} {a : Nat} {l : List Fn} {m : Nat} {i : Nat
             have := ih hp hr
             omega
 
+/-- the first match in a prefix is the first match in the whole list -/
+theorem findFn_of_take {n : String} {a : Nat} {l : List Fn} {m i : Nat}
+    (h : findFn n a (l.take m) = some i) : findFn n a l = some i := by
+  induction l generalizing m i with
+  | nil => simp [findFn] at h
+  | cons x xs ih =>
+    cases m with
+    | zero => simp [findFn] at h
+    | succ m =>
+      simp only [List.take_succ_cons] at h
+      by_cases hx : x.is n a = true
+      · simp only [findFn, hx, if_true] at h ⊢; exact h
+      · have hx' : x.is n a = false := by simpa using hx
+        simp only [findFn, hx', Bool.false_eq_true, if_false] at h ⊢
+        cases hr : findFn n a (xs.take m) with
+        | none => simp [hr] at h
+        | some k =>
+          simp only [hr, Option.map_some, Option.some.injEq] at h
+          subst h
+          rw [ih hr]; rfl
+
+/-- replacing the first match by another functor of the same name and arity keeps it the first match -/
+theorem findFn_modAt_same {n : String} {a : Nat} {l : List Fn} {i : Nat} {f : Fn}
+    (h : findFn n a l = some i) (hf : f.is n a = true) : findFn n a (modAt (fun _ => f) i l) = some i := by
+  induction l generalizing i with
+  | nil => cases h
+  | cons x xs ih =>
+    unfold findFn at h
+    split at h
+    · cases h; simp [modAt, findFn, hf]
+    · next hx =>
+      cases hr : findFn n a xs with
+      | none => simp [hr] at h
+      | some k =>
+        simp only [hr, Option.map_some, Option.some.injEq] at h
+        subst h
+        simp [modAt, findFn, hx, ih hr]
+
 theorem take_modAt_of_le {α : Type} (f : α → α) (i n : Nat) (l : List α) (h : n ≤ i) : (modAt f i l).take n = l.take n := by
   rw [take_modAt]
   apply modAt_of_length_le
   simp only [List.length_take]
   omega
 
-theorem take_dropLast_of_lt {α : Type} {x : α} (l : List α) (n : Nat) (h : n < l.length) : (l.dropLast ++ [x]).take n = l.take n := by
-  have hl : n ≤ l.dropLast.length := by simp only [List.length_dropLast]; omega
-  rw [List.take_append_of_le_length hl, List.dropLast_eq_take, List.take_take]
+theorem take_dropLast_of_lt {α : Type} (l : List α) (n : Nat) (h : n < l.length) : l.dropLast.take n = l.take n := by
+  rw [List.dropLast_eq_take, List.take_take]
   congr 1
   omega
 
+theorem modAt_modAt_const {α : Type} (a b : α) (i : Nat) (l : List α) :
+    modAt (fun _ => b) i (modAt (fun _ => a) i l) = modAt (fun _ => b) i l := by
+  apply List.ext_getElem?
+  intro j
+  simp only [getElem?_modAt]
+  by_cases hij : i = j
+  · subst hij; cases l[i]? <;> simp
+  · simp [hij]
+
 theorem finv_step {H : Decl → Nat} {c0 : Ctx} {st st' : St} {e : Ev}
-    (hno : (match e with | .fnBegin n a _ => (findFn n a c0.fns).isSome | _ => false) = false)
+    (hno : completesExisting c0 st e = false)
     (hinv : FInv c0 st) (hstep : step H st e = .ok st') : FInv c0 st' := by
   unfold step at hstep
   cases hch : st.child with
   | some ch =>
     simp only [hch] at hstep
-    have hopen := hinv.open_new ch hch
+    have hopen := hinv.opened ch hch
+    -- events that only move the depth counter
+    have keep : ∀ d : Nat, FInv c0 { st with child := some { ch with depth := d } } := by
+      intro d
+      refine ⟨hinv.len, (by intro h; cases h), ?_⟩
+      intro ch' h'
+      simp only [Option.some.injEq] at h'
+      subst h'
+      exact hopen
     cases e with
     | reg n r => cases hstep; exact hinv
-    | enterFor i =>
-      cases hstep
-      exact ⟨hinv.pre, hinv.len, by intro ch' h'; simp only [Option.some.injEq] at h'; subst h'; exact hopen⟩
-    | enterForall v t =>
-      cases hstep
-      exact ⟨hinv.pre, hinv.len, by intro ch' h'; simp only [Option.some.injEq] at h'; subst h'; exact hopen⟩
-    | enterBlk =>
-      cases hstep
-      exact ⟨hinv.pre, hinv.len, by intro ch' h'; simp only [Option.some.injEq] at h'; subst h'; exact hopen⟩
+    | enterFor i => cases hstep; exact keep _
+    | enterForall v t => cases hstep; exact keep _
+    | enterBlk => cases hstep; exact keep _
     | leave =>
       simp only at hstep
       split at hstep
-      · split at hstep
-        · next i hi =>
-          cases hstep
-          have hle : c0.fns.length ≤ i := by
-            apply findFn_take_none (l := st.ctx.fns) (m := c0.fns.length) _ hi
-            rw [hinv.pre]; exact hopen.1
-          refine ⟨?_, ?_, ?_⟩
-          · simp only; rw [take_modAt_of_le _ _ _ _ hle]; exact hinv.pre
-          · simp only [length_modAt]; exact hinv.len
-          · intro ch' h'; cases h'
-        · cases hstep
-      · cases hstep
-        exact ⟨hinv.pre, hinv.len, by intro ch' h'; simp only [Option.some.injEq] at h'; subst h'; exact hopen⟩
+      · next hd =>
+        -- the declaration is complete: by hypothesis it is not a pre-existing one
+        have hnew : findFn ch.name ch.arity c0.fns = none := by
+          simp only [completesExisting, hch, hd, decide_true, Bool.true_and] at hno
+          cases h : findFn ch.name ch.arity c0.fns with
+          | none => rfl
+          | some k => simp [h] at hno
+        rcases hopen with ⟨_, hpre, _, _⟩ | ⟨i, b, hi, _⟩
+        · split at hstep
+          · next i hi =>
+            cases hstep
+            have hle : c0.fns.length ≤ i := by
+              apply findFn_take_none (l := st.ctx.fns) (m := c0.fns.length) _ hi
+              rw [hpre]; exact hnew
+            refine ⟨?_, ?_, ?_⟩
+            · simp only [length_modAt]; exact hinv.len
+            · intro _; simp only; rw [take_modAt_of_le _ _ _ _ hle]; exact hpre
+            · intro ch' h'; cases h'
+          · cases hstep
+        · rw [hnew] at hi; cases hi
+      · cases hstep; exact keep _
     | fnBegin n a fid => cases hstep
     | fail => cases hstep
   | none =>
     simp only [hch] at hstep
+    have hpre := hinv.closed hch
+    have same : ∀ c : Ctx, c.fns = st.ctx.fns → ∀ stk, FInv c0 ⟨c, stk, none⟩ := by
+      intro c hc stk
+      exact ⟨by simp only [hc]; exact hinv.len, by intro _; simp only [hc]; exact hpre, by intro ch' h'; cases h'⟩
     cases e with
     | reg n r =>
       simp only at hstep
-      split at hstep
-      · cases hstep
-      · cases hreg : registerSymbol H st.ctx n r with
-        | ok c =>
-          simp only [hreg] at hstep
-          cases hstep
-          have hf : c.fns = st.ctx.fns ∧ c.fbacked = st.ctx.fbacked := by
-            rcases registerSymbol_cases hreg with h | h | ⟨i, cur, _, h⟩ <;> subst h <;> exact ⟨rfl, rfl⟩
-          exact ⟨by simp only [hf.1]; exact hinv.pre, by simp only [hf.1]; exact hinv.len,
-            by intro ch' h'; cases h'⟩
-        | error err => simp only [hreg] at hstep; cases hstep
+      cases hreg : registerSymbol H st.ctx n r with
+      | ok c =>
+        simp only [hreg] at hstep
+        cases hstep
+        have hf : c.fns = st.ctx.fns := by
+          rcases registerSymbol_cases hreg with h | h | ⟨i, cur, _, h⟩ <;> subst h <;> rfl
+        exact same c hf _
+      | error err => simp only [hreg] at hstep; cases hstep
     | enterFor i =>
       simp only at hstep
       cases h : enterFor st.ctx i with
@@ -675,9 +726,7 @@ theorem finv_step {H : Decl → Nat} {c0 : Ctx} {st st' : St} {e : Ev}
         obtain ⟨c, fr⟩ := p
         simp only [h] at hstep
         cases hstep
-        have hu := enterFor_undo h
-        exact ⟨by simp only [hu.2.2.2.2.2.2.1]; exact hinv.pre, by simp only [hu.2.2.2.2.2.2.1]; exact hinv.len,
-          by intro ch' h'; cases h'⟩
+        exact same c (enterFor_undo h).2.2.2.2.2.2.1 _
     | enterForall v t =>
       simp only at hstep
       cases h : enterForall st.ctx v t with
@@ -686,13 +735,11 @@ theorem finv_step {H : Decl → Nat} {c0 : Ctx} {st st' : St} {e : Ev}
         obtain ⟨c, fr⟩ := p
         simp only [h] at hstep
         cases hstep
-        have hu := enterForall_undo h
-        exact ⟨by simp only [hu.2.2.2.2.2.2.1]; exact hinv.pre, by simp only [hu.2.2.2.2.2.2.1]; exact hinv.len,
-          by intro ch' h'; cases h'⟩
+        exact same c (enterForall_undo h).2.2.2.2.2.2.1 _
     | enterBlk =>
       simp only at hstep
       cases hstep
-      exact ⟨hinv.pre, hinv.len, by intro ch' h'; cases h'⟩
+      exact same { st.ctx with exec := st.ctx.exec + 1 } rfl _
     | leave =>
       simp only at hstep
       cases hs : st.stack with
@@ -700,66 +747,97 @@ theorem finv_step {H : Decl → Nat} {c0 : Ctx} {st st' : St} {e : Ev}
       | cons fr rest =>
         simp only [hs] at hstep
         cases hstep
-        exact ⟨hinv.pre, hinv.len, by intro ch' h'; cases h'⟩
+        exact same (fr.exitNormal st.ctx) rfl _
     | fnBegin n a fid =>
-      simp only at hstep hno
+      simp only at hstep
       split at hstep
       · cases hstep
       · cases hstep
-        have hn0 : findFn n a c0.fns = none := by
-          cases h : findFn n a c0.fns with
-          | none => rfl
-          | some k => simp [h] at hno
         unfold createOrReplace
-        cases hfi : findFn n a st.ctx.fns with
+        cases hn0 : findFn n a c0.fns with
         | none =>
-          simp only
-          refine ⟨?_, ?_, ?_⟩
-          · rw [List.take_append_of_le_length hinv.len]; exact hinv.pre
-          · simp only [List.length_append, List.length_cons, List.length_nil]; have := hinv.len; omega
-          · intro ch' h'
-            simp only [Option.some.injEq] at h'
-            subst h'
-            refine ⟨hn0, ?_, ?_⟩
-            · intro _; simp only [List.length_append, List.length_cons, List.length_nil]; have := hinv.len; omega
-            · intro b hb; cases hb
-        | some i =>
-          simp only
-          have hle : c0.fns.length ≤ i := by
-            apply findFn_take_none (l := st.ctx.fns) (m := c0.fns.length) _ hfi
-            rw [hinv.pre]; exact hn0
-          refine ⟨?_, ?_, ?_⟩
-          · rw [take_modAt_of_le _ _ _ _ hle]; exact hinv.pre
-          · simp only [length_modAt]; exact hinv.len
-          · intro ch' h'
-            simp only [Option.some.injEq] at h'
-            subst h'
+          cases hfi : findFn n a st.ctx.fns with
+          | none =>
+            simp only
+            refine ⟨?_, (by intro h; cases h), ?_⟩
+            · simp only [List.length_append, List.length_cons, List.length_nil]; have := hinv.len; omega
+            · intro ch' h'
+              simp only [Option.some.injEq] at h'
+              subst h'
+              refine Or.inl ⟨hn0, ?_, ?_, ?_⟩
+              · rw [List.take_append_of_le_length hinv.len]; exact hpre
+              · intro _; simp only [List.length_append, List.length_cons, List.length_nil]; have := hinv.len; omega
+              · intro b hb; cases hb
+          | some i =>
+            simp only
+            have hle : c0.fns.length ≤ i := by
+              apply findFn_take_none (l := st.ctx.fns) (m := c0.fns.length) _ hfi
+              rw [hpre]; exact hn0
             obtain ⟨f, hf, hfis⟩ := findFn_is hfi
-            refine ⟨hn0, ?_, ?_⟩
+            refine ⟨by simp only [length_modAt]; exact hinv.len, (by intro h; cases h), ?_⟩
+            intro ch' h'
+            simp only [Option.some.injEq] at h'
+            subst h'
+            refine Or.inl ⟨hn0, ?_, ?_, ?_⟩
+            · rw [take_modAt_of_le _ _ _ _ hle]; exact hpre
             · intro hnone; simp only [hf] at hnone; cases hnone
             · intro b hb
               simp only [hf, Option.some.injEq] at hb
               subst hb
-              -- the replaced functor has the (name, arity) of the event
               simp only [Fn.is, Bool.and_eq_true, beq_iff_eq] at hfis
               rw [hfis.1, hfis.2]; exact hn0
+        | some i0 =>
+          -- a pre-existing function is being redefined: its entry is replaced in place, the old functor is backed up
+          have hfi : findFn n a st.ctx.fns = some i0 := findFn_of_take (m := c0.fns.length) (by rw [hpre]; exact hn0)
+          simp only [hfi]
+          obtain ⟨f, hf, hfis⟩ := findFn_is hfi
+          refine ⟨by simp only [length_modAt]; exact hinv.len, (by intro h; cases h), ?_⟩
+          intro ch' h'
+          simp only [Option.some.injEq] at h'
+          subst h'
+          refine Or.inr ⟨i0, f, hn0, hf, ?_, ?_⟩
+          · simp only
+            rw [modAt_modAt_const, modAt_id_of _ _ _ (by intro x hx; rw [hf] at hx; cases hx; rfl)]
+            exact hpre
+          · simp only
+            have hname : f.name = n ∧ f.arity = a := by
+              simpa [Fn.is] using hfis
+            rw [hname.1, hname.2]
+            exact findFn_modAt_same hfi (by simp [Fn.is])
     | fail => cases hstep
 
 theorem finv_run {H : Decl → Nat} {c0 : Ctx} {st : St} (evs : List Ev)
-    (hno : redefinesExisting c0 evs = false) (hinv : FInv c0 st) : FInv c0 (runEvents H st evs).2 := by
+    (hno : redefinitionCompleted H c0 st evs = false) (hinv : FInv c0 st) : FInv c0 (runEvents H st evs).2 := by
   induction evs generalizing st with
   | nil => exact hinv
   | cons e es ih =>
-    simp only [redefinesExisting, List.any_cons, Bool.or_eq_false_iff] at hno
     simp only [runEvents]
+    unfold redefinitionCompleted at hno
     cases hs : step H st e with
-    | ok st' => simp only; exact ih (by simpa [redefinesExisting] using hno.2) (finv_step hno.1 hinv hs)
+    | ok st' =>
+      simp only [hs, Bool.or_eq_false_iff] at hno
+      exact ih hno.2 (finv_step hno.1 hinv hs)
     | error err => exact hinv
 
-theorem getLast?_mem_take_or {l : List Fn} {m : Nat} {last : Fn} (h : l.getLast? = some last) (hm : l.length ≤ m) :
-    last ∈ l.take m := by
-  rw [List.take_of_length_le hm]
-  exact List.mem_of_getLast? h
-
+/-- what `rollback` does to the pre-existing entries under the invariant: it gives them back -/
+theorem finv_rollback {c0 : Ctx} {st : St} (hinv : FInv c0 st) (ch : Child) (hch : st.child = some ch) :
+    (rollbackCtx st.ctx).fns.take c0.fns.length = c0.fns := by
+  unfold rollbackCtx rollback
+  rcases hinv.opened ch hch with ⟨_, hpre, hlt, hbk⟩ | ⟨i, b, _, hb, hres, hfind⟩
+  · cases hb : st.ctx.fbacked with
+    | none =>
+      simp only
+      rw [take_dropLast_of_lt _ _ (hlt hb)]; exact hpre
+    | some b =>
+      simp only
+      cases hf : findFn b.name b.arity st.ctx.fns with
+      | none => simp only; exact hpre
+      | some j =>
+        simp only
+        have hle : c0.fns.length ≤ j := by
+          apply findFn_take_none (l := st.ctx.fns) (m := c0.fns.length) _ hf
+          rw [hpre]; exact hbk b hb
+        rw [take_modAt_of_le _ _ _ _ hle]; exact hpre
+  · simp only [hb, hfind]; exact hres
 
 end BlocV.ParseCtx
